@@ -126,4 +126,146 @@ example : accept fnsAscii tinyDict ['p','a','r','i','s'] = false := by decide  -
 example : accept fnsAscii tinyDict ['l','i','f','t'] = false := by decide      -- other dialect
 example : accept fnsAscii tinyDict ['d','o','g'] = false := by decide
 
+/-! ### w22: joint witnesses of the hypotheses, the exact characterisation, listed-spelling suggestions -/
+
+/-- `asciiLower` is idempotent on one character (26 capital letters checked by the kernel) -/
+theorem asciiLower_idem1 (c : Char) : asciiLower (asciiLower [c]) = asciiLower [c] := by
+  by_cases h : 'A' ≤ c ∧ c ≤ 'Z'
+  · have h1 : 65 ≤ c.toNat := by
+      have := UInt32.le_iff_toNat_le.mp (Char.le_def.mp h.1); simpa using this
+    have h2 : c.toNat ≤ 90 := by
+      have := UInt32.le_iff_toNat_le.mp (Char.le_def.mp h.2); simpa using this
+    have key : ∀ n, n < 26 →
+        asciiLower (asciiLower [Char.ofNat (65 + n)]) = asciiLower [Char.ofNat (65 + n)] := by decide
+    have := key (c.toNat - 65) (by omega)
+    rwa [show 65 + (c.toNat - 65) = c.toNat by omega, Char.ofNat_toNat] at this
+  · simp [asciiLower, h]
+
+/-- the ASCII instance satisfies `Laws`: the hypotheses `Laws` + `UniqueKeys` are jointly satisfiable -/
+theorem laws_fnsAscii : Laws fnsAscii where
+  norm_idem _ := rfl
+  key_lower w := by
+    show asciiLower (id (asciiLower w)) = asciiLower (id w)
+    induction w with
+    | nil => rfl
+    | cons c w ih =>
+      have h1 := asciiLower_idem1 c
+      simp only [id, asciiLower, List.map_cons, List.map_nil, List.cons.injEq, and_true] at h1 ih ⊢
+      exact ⟨h1, ih⟩
+
+theorem uniqueKeys_tinyDict : UniqueKeys fnsAscii tinyDict := by unfold UniqueKeys tinyDict; decide
+
+/-- non-vacuity of `lookup_of_mem`: all hypotheses at once, a capitalised entry found under an
+upper-case query -/
+example : lookup fnsAscii tinyDict ['P','A','R','I','S'] = some ⟨['P','a','r','i','s'], true⟩ :=
+  lookup_of_mem fnsAscii tinyDict uniqueKeys_tinyDict ⟨['P','a','r','i','s'], true⟩ (by decide)
+    ['P','A','R','I','S'] (by decide)
+
+/-- non-vacuity of `listed_accepted`: the capitalised entry of a three-entry dictionary (one entry of
+another dialect), `Laws` and `UniqueKeys` together -/
+example : accept fnsAscii tinyDict ['P','a','r','i','s'] = true :=
+  listed_accepted fnsAscii laws_fnsAscii tinyDict uniqueKeys_tinyDict ⟨['P','a','r','i','s'], true⟩
+    (by decide) rfl rfl
+
+/-- non-vacuity of `capitalised_accepted`: `Cat` and `CAT` for the lower-case entry `cat` -/
+example : accept fnsAscii tinyDict ['C','a','t'] = true ∧ accept fnsAscii tinyDict ['C','A','T'] = true :=
+  ⟨capitalised_accepted fnsAscii laws_fnsAscii tinyDict uniqueKeys_tinyDict ⟨['c','a','t'], true⟩
+      (by decide) rfl rfl ['C','a','t'] (by decide),
+   capitalised_accepted fnsAscii laws_fnsAscii tinyDict uniqueKeys_tinyDict ⟨['c','a','t'], true⟩
+      (by decide) rfl rfl ['C','A','T'] (by decide)⟩
+
+/-- non-vacuity of `unlisted_flagged`: `Dog` has no entry's key in the three-entry dictionary -/
+example : accept fnsAscii tinyDict ['D','o','g'] = false :=
+  unlisted_flagged fnsAscii tinyDict ['D','o','g'] (by decide)
+
+/-- non-vacuity of `accepted_is_listed` (hypothesis `accept … = true` on a non-trivial word) -/
+example : ∃ e ∈ tinyDict, key fnsAscii e.canon = key fnsAscii ['C','A','T'] ∧ e.dialectOk = true :=
+  accepted_is_listed fnsAscii tinyDict ['C','A','T'] (by decide)
+
+/-- **Exact characterisation of the decision** (both directions at once, for every word — listed or
+not): under `Laws` and `UniqueKeys`, `w` is accepted iff some entry has `w`'s key, admits the
+dialect, and its listed spelling is the normalized `w` or the normalized lower-cased `w`.
+Hence: a key no entry has ⇒ reported (`unlisted_flagged`); and a word whose key IS listed is still
+reported when the dialect excludes it or the capitalisation is neither the listed one nor an
+upper-casing of it (`paris` against `Paris`). -/
+theorem accept_iff (f : Fns) (hl : Laws f) (dict : List Entry) (hu : UniqueKeys f dict)
+    (w : List Char) :
+    accept f dict w = true ↔
+      ∃ e ∈ dict, key f e.canon = key f w ∧ e.dialectOk = true ∧
+        (e.canon = f.normalize w ∨ e.canon = f.normalize (f.lower w)) := by
+  have hk1 : key f (f.normalize w) = key f w := by simp [key, hl.norm_idem]
+  have hk2 : key f (f.normalize (f.lower w)) = key f w := by
+    rw [← hl.key_lower w]; simp [key, hl.norm_idem]
+  have e1 : lookup f dict (f.normalize w) = lookup f dict w := by simp [lookup, hk1]
+  have e2 : lookup f dict (f.normalize (f.lower w)) = lookup f dict w := by simp [lookup, hk2]
+  constructor
+  · intro h
+    unfold accept at h
+    split at h
+    · rename_i e he
+      have hm := List.mem_of_find?_eq_some he
+      have hp := List.find?_some he
+      simp only [containsExact, e1, e2, he, Bool.and_eq_true, Bool.or_eq_true, beq_iff_eq] at h hp
+      exact ⟨e, hm, hp, h.1, h.2⟩
+    · cases h
+  · rintro ⟨e, he, hk, hd, hc⟩
+    have h1 : lookup f dict w = some e := lookup_of_mem f dict hu e he w hk.symm
+    simp only [accept, h1, containsExact, e1, e2, hd, Bool.true_and, Bool.or_eq_true, beq_iff_eq]
+    exact hc
+
+/-- non-vacuity of `accept_iff`, and the case the one-directional theorems do not speak about:
+`paris` has a listed key (entry `Paris`) and is reported all the same -/
+example : accept fnsAscii tinyDict ['p','a','r','i','s'] = false ∧
+    ∃ e ∈ tinyDict, key fnsAscii e.canon = key fnsAscii ['p','a','r','i','s'] := by
+  refine ⟨?_, ⟨['P','a','r','i','s'], true⟩, by decide, by decide⟩
+  apply Bool.eq_false_iff.mpr
+  intro h
+  obtain ⟨e, he, hk, _, hc⟩ := (accept_iff fnsAscii laws_fnsAscii tinyDict uniqueKeys_tinyDict _).mp h
+  simp only [tinyDict, List.mem_cons, List.not_mem_nil, or_false] at he
+  rcases he with rfl | rfl | rfl <;> revert hk hc <;> decide
+
+/-- **Suggestions are listed spellings** (what the property says; `suggestions_are_words` only gives
+"has the key of an entry"): when every fuzzy candidate is the listed spelling of some entry — which is
+what `suggest_correct_spelling` delivers (C15 `fuzzy_sound`: every result is a word of the
+dictionary) — every suggestion is, up to `up` on a capitalised misspelling, the listed spelling of
+an entry that admits the dialect. -/
+theorem suggestions_are_words_strong (f : Fns) (dict : List Entry) (hu : UniqueKeys f dict)
+    (fuzzy : List (List Char)) (hf : ∀ s ∈ fuzzy, ∃ e ∈ dict, e.canon = s)
+    (cap : Bool) (up : List Char → List Char) :
+    ∀ s ∈ suggestions f dict fuzzy cap up,
+      ∃ e ∈ dict, e.dialectOk = true ∧ e.canon ∈ fuzzy ∧
+        (if cap = true then s = up e.canon else s = e.canon) := by
+  have hkept : ∀ s₀ ∈ (fuzzy.filter fun s => match lookup f dict s with
+      | some e => e.dialectOk | none => false).take 3,
+      ∃ e ∈ dict, e.dialectOk = true ∧ e.canon ∈ fuzzy ∧ s₀ = e.canon := by
+    intro s₀ hs
+    have ⟨hm, hp⟩ := List.mem_filter.mp (List.mem_of_mem_take hs)
+    obtain ⟨e, he, rfl⟩ := hf s₀ hm
+    rw [lookup_of_mem f dict hu e he e.canon rfl] at hp
+    exact ⟨e, he, hp, hm, rfl⟩
+  intro s hs
+  unfold suggestions at hs
+  simp only at hs
+  split at hs
+  · rename_i hc
+    obtain ⟨s₀, hs₀, rfl⟩ := List.mem_map.mp hs
+    obtain ⟨e, he, hd, hm, rfl⟩ := hkept s₀ hs₀
+    exact ⟨e, he, hd, hm, by simp [hc]⟩
+  · rename_i hc
+    obtain ⟨e, he, hd, hm, rfl⟩ := hkept s hs
+    exact ⟨e, he, hd, hm, by simp [hc]⟩
+
+/-- non-vacuity of `suggestions_are_words(_strong)`: four candidates, the other-dialect entry is
+dropped, the first letter is upper-cased, order kept -/
+example : suggestions fnsAscii tinyDict [['c','a','t'], ['l','i','f','t'], ['P','a','r','i','s']] true
+      (fun s => match s with | [] => [] | c :: r => c.toUpper :: r)
+    = [['C','a','t'], ['P','a','r','i','s']] ∧
+    (∀ s ∈ [['c','a','t'], ['l','i','f','t'], ['P','a','r','i','s']], ∃ e ∈ tinyDict, e.canon = s) := by
+  decide
+
+/-- without the hypothesis on `fuzzy` the weaker theorem cannot be improved: a candidate that is
+only a re-casing of an entry passes the filter of the model (the real code never produces one) -/
+example : suggestions fnsAscii tinyDict [['p','a','r','i','s']] false id = [['p','a','r','i','s']] := by
+  decide
+
 end Harper.C06
